@@ -28,7 +28,7 @@ ASSUMPTIONS = ["acceptance table: Ito {euler, milstein, srk}; Stratonovich {eule
                "forward pass; srk, log_ode, reversible_heun never",
                "a supported adjoint combination must give finite gradients within 10% (relative L2, dt=1/64) of "
                "backprop through the same forward solver; an unsupported one must raise when backward starts"]
-REQUIRED_COUNTERS = ["forward_accepted", "forward_rejected", "adjoint_supported", "adjoint_refused", "malformed",
+REQUIRED_COUNTERS = ["forward_accepted", "forward_rejected", "adjoint_supported", "adjoint_refused", "malformed", "malformed_base_call_accepted",
                      "defaults_checked"]
 METHODS = ["euler", "milstein", "srk", "midpoint", "reversible_heun", "adjoint_reversible_heun", "heun", "log_ode",
            "euler_heun", "blah"]
@@ -255,8 +255,10 @@ def _malformed_classes():
 
     def base(nt="diagonal", st="ito", **over):
         sde = _sde(st, nt)
-        kw = dict(sde=sde, y0=torch.zeros(2, 2), ts=[0.0, 0.5], dt=0.25,
-                  bm=torchsde.BrownianInterval(0.0, 0.5, size=(2, sde.m), entropy=1))
+        # the base call is VALID (checked by the "control" class below): every class changes exactly one thing
+        kw = dict(sde=sde, y0=torch.zeros(2, 2), ts=[0.0, 0.5], dt=0.25, method="euler" if st == "ito" else "midpoint",
+                  bm=torchsde.BrownianInterval(0.0, 0.5, size=(2, sde.m), entropy=1,
+                                               levy_area_approximation="space-time"))
         kw.update(over)
         return kw
 
@@ -284,7 +286,12 @@ def _malformed_classes():
         return torch.zeros(y.size(0) + 1, y.size(1))
 
     C = [
+        ("control", lambda: base()),
+        ("control_general", lambda: base(nt="general")),
         ("ts_equal", lambda: base(ts=[0.0, 0.5, 0.5])),
+        ("ts_equal_at_start", lambda: base(ts=[0.0, 0.0, 0.5])),
+        ("ts_equal_interior_tuple", lambda: base(ts=(0.0, 0.25, 0.25, 0.5))),
+        ("ts_tensor_equal", lambda: base(ts=torch.tensor([0.0, 0.25, 0.25, 0.5]))),
         ("ts_decreasing", lambda: base(ts=[0.5, 0.0])),
         ("ts_tensor_not_increasing", lambda: base(ts=torch.tensor([0.0, 0.3, 0.2]))),
         ("ts_strings", lambda: base(ts=["a", "b"])),
@@ -339,8 +346,14 @@ def run_malformed(case):
             except Exception as e:  # noqa
                 outcome = f"{type(e).__name__}: {str(e)[:120]}"
             q, s = mon.activity()
-        cnt["malformed"] = cnt.get("malformed", 0) + 1
         ctx = f"{case['entry']} class={name}"
+        if name.startswith("control"):
+            # the unmodified base call must be accepted, otherwise every class below is rejected for the wrong reason
+            cnt["malformed_base_call_accepted"] = cnt.get("malformed_base_call_accepted", 0) + int(outcome == "ran")
+            if outcome != "ran":
+                return {"inconclusive": [f"the base call of the malformed-input classes is itself rejected: {ctx} -> {outcome}"]}
+            continue
+        cnt["malformed"] = cnt.get("malformed", 0) + 1
         if outcome == "ran":
             viol.append({"mechanism": f"malformed_input_accepted:{name}", "detail": ctx})
         elif outcome != "ValueError":
